@@ -70,8 +70,18 @@ RENDER_DIALECTS = ['mysql', 'postgresql', 'sqlite', 'mssql', 'oracle']
 RENDER = [(s, d) for s in RENDER_SQL for d in RENDER_DIALECTS]
 
 
+PREPARE = [
+    'select t1.a, t2.c from int1.t1 join int2.t2 on t1.a = t2.a where t1.b = ?',
+    'select t1.a, t2.c, t3.b from int1.t1 join int2.t2 on t1.a = t2.a join int1.t3 on t3.b = t1.b',
+    'select t.a, m.y from int1.t1 as t join mindsdb.pred as m where t.a = ?',
+    'select x.a, y.c, z.b, w.a from int1.t1 as x join int2.t2 as y on x.a = y.a join int1.t3 as z on z.b = x.b join int2.t5 as w on w.a = x.a',
+    'select a from int1.t1 where b = ?', 'select * from int1.t1 join int2.t2 on t1.a = t2.a',
+]
+
+
 def all_calls():
     calls = [('parse', s, d) for s, d in PARSE]
+    calls += [('prepare', s, None) for s in PREPARE]
     calls += [('plan', s, None) for s in PLAN]
     calls += [('render', s, d) for s, d in RENDER]
     return calls
@@ -89,6 +99,23 @@ def do_call(call, catalog=None):
             cat = catalog if catalog is not None else copy.deepcopy(CATALOG)
             plan = plan_query(parse_sql(sql, dialect='mindsdb'), **cat)
             return 'plan:' + jdump(plan_proj(plan))
+        if kind == 'prepare':
+            # the steps a prepared-statement planner asks the caller to run (in the order it asks), and the statement info
+            from mindsdb_sql.planner.query_planner import QueryPlanner
+            cat = catalog if catalog is not None else copy.deepcopy(CATALOG)
+            pl = QueryPlanner(**cat)
+            steps = []
+            for st in pl.prepare_steps(parse_sql(sql, dialect='mindsdb')) or []:
+                steps.append(jdump(proj(st)))
+                try:
+                    st.set_result(None)
+                except Exception:   # noqa
+                    pass
+            try:
+                info = jdump(proj(pl.get_statement_info()))
+            except Exception as e:   # noqa
+                info = 'info-exc:%s' % type(e).__name__
+            return 'prepare:' + jdump(steps) + info
         if kind == 'render':
             from mindsdb_sql.render.sqlalchemy_render import SqlalchemyRender
             return 'text:' + SqlalchemyRender(d).get_string(parse_sql(sql, dialect='mindsdb'), with_failback=True)
@@ -318,6 +345,29 @@ def run(ctx):
                                   'a call returned a different result when another call ran interleaved with it',
                                   {'calls': [list(x) for x in pa], 'schedule': list(s), 'call': list(c),
                                    'expected': short(baseline[c]), 'got': short(got or 'None')})
+    # error reports: two REJECTED inputs in flight at the same time; each call must report its own tokens.  The rejection
+    # happens within the first driver steps, so the 5-step schedules of TLC cover "A is inside its error callback while B
+    # runs through its own": all block-shaped schedules A^k B^5 A^(5-k) (and B first) are forced.
+    schd = sch2 if thorough else schedules_from_tlc(ctx, 'Calls_fresh_deep.cfg', 'calls_fresh_deep')
+
+    def blocks(sc):
+        runs = 1 + sum(1 for i in range(1, len(sc)) if sc[i] != sc[i - 1])
+        return runs <= 3
+    block_sched = [sc for sc in schd if blocks(sc)]
+    rej = [('parse', ') a', 'mindsdb'), ('parse', 'from b where', 'mindsdb'), ('parse', 'select , c', 'mindsdb'),
+           ('parse', 'create d', 'mindsdb'), ('parse', ') e', 'mysql'), ('parse', 'from f', 'mysql')]
+    base_rej = {c: do_call(c) for c in rej}
+    for pa in [(rej[0], rej[1]), (rej[2], rej[3]), (rej[1], rej[2]), (rej[4], rej[5]), (rej[0], rej[0])]:
+        for sc in block_sched:
+            res, evs, st = run_schedule(list(pa), sc, base_rej)
+            forced += 1
+            for c, got in zip(pa, res):
+                if got != base_rej[c]:
+                    ctx.violation('concurrent-result-differs:parse-error-report',
+                                  'the error reported for a rejected input depends on another rejected input parsed at the same time',
+                                  {'calls': [list(x) for x in pa], 'schedule': list(sc), 'call': list(c),
+                                   'expected': short(base_rej[c]), 'got': short(got or 'None')})
+    ctx.cov['error_report_schedules'] = len(block_sched)
     triples = [tuple(rng.choice(calls) for _ in range(3)) for _ in range(6 if thorough else 2)]
     for tr3 in triples:
         for s in (sch3 if thorough else rng.sample(sch3, min(len(sch3), 30))):
